@@ -323,7 +323,7 @@ func TestVF_C41(t *testing.T) {
 		"real splitQuery (every request) and real SplitByIntervalMiddleware.Do with a recording next, with and without StepAlignMiddleware in front (every 8th request with <= 300 sub-requests); " +
 		"oracle (arithmetic, exact): sorted sub-requests chain start, last_i+step, ... up to the original's last timestamp <=> multiset of evaluation timestamps equals the original's; every sub-request start = start mod step, same step, same query meaning (@start()/@end() pinned to the original range); " +
 		"label/series: union of sub-ranges covers every instant of [start,end]; distinct = (kind,start,end,step,interval); non-trivial = split into >= 2 sub-requests, or start==end, or step >= interval")
-	n := r.N(1500, 40000)
+	n := r.N(1200, 40000)
 	r.Require(int64(n)*50, n*10)
 	r.Assume("timestamps are non-negative milliseconds (the codecs reject nothing else relevant; negative times are outside the workload)")
 	ctx := user.InjectOrgID(context.Background(), "t")
